@@ -3,6 +3,8 @@ package signaling
 import (
 	"encoding/json"
 	"fmt"
+	"io"
+	"log"
 	"sort"
 	"strconv"
 	"strings"
@@ -320,6 +322,13 @@ func (w *vC14World) late(f []string) string {
 }
 
 func vC14Exec(t *testing.T, c *vCase) {
+	for _, line := range c.Ops {
+		if vC14IsRoomOp(line) {
+			// room level (zz_verif_c14_rooms_test.go): real hub, rooms and sessions
+			vC14RExec(t, c)
+			return
+		}
+	}
 	for _, line := range c.Ops {
 		if strings.HasPrefix(line, "late ") || strings.HasPrefix(line, "conc ") {
 			vC14ExecReal(c)
@@ -676,9 +685,12 @@ func vC14Gen(e *vEnv, r *vRand) []vCase {
 		cases = append(cases, vCase{Ops: []string{fmt.Sprintf("conc %d %d", r.u64()%1000000, 20+r.intn(e.scale(60, 400)))},
 			Tags: []string{"conc"}})
 	}
+	// the embedding: real rooms and sessions, ttls pending across leave / re-join / room switch
+	cases = append(cases, vC14RoomsGen(e, r.fork())...)
 	return cases
 }
 
 func TestVerifC14(t *testing.T) {
+	log.SetOutput(io.Discard)
 	vRun(t, vC14Gen, vC14Exec)
 }
